@@ -348,8 +348,13 @@ package builder
 //@   requires@C13 gen != nil && CallOK(ctx, sourceID, source, target) && AssignOK(assignTo)
 
 //@ func Enum.Build(gen, ctx, sourceID, source, target, errPath)
-//@   props C03
+//@   props C03 C08
 //@   propagates
+// C08: a member maps by enum:map, else by the transformers, else to the member of the same name
+//@   at@C08 call caseAction#1 assert arg5 == ite(has(ctx.Conf.EnumMapping.Map, sourceName), ctx.Conf.EnumMapping.Map[sourceName],
+//@           ite(has(transformerMapping, sourceName), transformerMapping[sourceName], sourceName))
+// C08: the fallback for values outside the enum is the configured enum:unknown, and without one generation fails
+//@   at@C08 call caseAction#2 assert arg5 == ctx.Conf.Common.Enum.Unknown && arg5 != ""
 // C04: the source expression itself is only passed through where that is allowed
 //@   ensures@C04 err == nil && result1 == sourceID ==> false
 //@   requires@C13 self != nil
@@ -398,6 +403,8 @@ package builder
 //@   at@C07 call gen.Assign#* assert same(arg5, errPath)
 //@   at@C11 call BuildByAssign#* assert !(ctx.UseConstructor && ctx.Conf.DefaultUpdate)
 //@   at@C11 call buildTargetVar#* assert ctx.UseConstructor && ctx.Conf.DefaultUpdate
+// the source is applied ON TOP of the constructor's result: the assignment is an update of that value
+//@   at@C11 call gen.Assign#1 assert arg1 != nil && arg1.Update
 //@   requires@C13 self != nil
 //@   requires@C13 GenInv(gen)
 //@   ensures@C13 GenInv(gen)
@@ -424,6 +431,7 @@ package builder
 //@   at@C07 call gen.Assign#* assert same(arg5, path)
 //@   at@C11 call BuildByAssign#* assert !(ctx.UseConstructor && ctx.Conf.DefaultUpdate)
 //@   at@C11 call buildTargetVar#* assert ctx.UseConstructor && ctx.Conf.DefaultUpdate
+//@   at@C11 call gen.Assign#1 assert arg1 != nil && arg1.Update
 //@   requires@C13 self != nil
 //@   requires@C13 GenInv(gen)
 //@   ensures@C13 GenInv(gen)
@@ -451,6 +459,7 @@ package builder
 //@   at@C07 call gen.Assign#* assert same(arg5, path)
 //@   at@C11 call gen.Build#* assert !ctx.UseConstructor
 //@   at@C11 call buildTargetVar#* assert ctx.UseConstructor
+//@   at@C11 call gen.Assign#1 assert arg1 != nil && arg1.Update
 //@   requires@C13 self != nil
 //@   requires@C13 GenInv(gen)
 //@   ensures@C13 GenInv(gen)
